@@ -102,15 +102,36 @@ theorem C06_delivery (p : Pool) (t : Nat) (tk : PTask) (h : p.tasks[t]? = some t
     · rename_i hw
       exact ⟨_, by simp [modTask, List.getElem?_modify, h]; rfl, by simp [hu, hw]⟩
 
-/-- **one CancelledError, however often named.** In every pool after every history: the worker of a task has
-observed at most one `CancelledError` (`nSaw` is the ghost counter incremented by the very step that delivers the
-error into the worker and writes the log entry), and none while it has not left its worker normally — however
-often its id was named in `cancel`, `stop`, `cancel_group` or `cancel_all` calls, from wherever. -/
+/-- **one CancelledError ends a worker, however often it is named.** In every pool after every history: at most one
+`CancelledError` has been delivered into a worker *and let through or answered by returning* (`nSaw` is the ghost
+counter incremented by the very step that delivers such an error and writes the log entry `X`), and none while the
+task is still in its worker — however often its id was named in `cancel`, `stop`, `cancel_group` or `cancel_all`
+calls, from wherever.  (A worker of the `resume` kind catches its first `CancelledError` and goes on awaiting: log
+entry `Y`, not counted here — see `C06_survivor_still_running`.) -/
 theorem C06_single_error (base : Nat) (h : History) (i : Nat) (c : Cfg) (p : Pool)
     (hc : ((World.init base).run h).cfgs[i]? = some c) (hp : ((World.init base).run h).pools[i]? = some p)
     (t : Nat) (tk : PTask) (ht : p.tasks[t]? = some tk) :
     tk.nSaw ≤ 1 ∧ ((tk.phase = .created ∨ tk.phase = .inWorker) → tk.nSaw = 0) :=
   ⟨(lifeAll base h i c p hc hp t tk ht).s1, (lifeAll base h i c p hc hp t tk ht).s0⟩
+
+/-- **a worker that catches its `CancelledError` and goes on is a running task like any other**: the step that
+delivers the error into such a worker (`resume` kind, first error) moves nothing between the registries, leaves the
+task in its worker, awaiting a pending future, with no cancellation pending — so the next `cancel(id)` / `stop` /
+`cancel_group` finds it running, accepts its id (`C06_all_or_nothing`) and delivers again (`C06_delivery`) -/
+theorem C06_survivor_still_running (p : Pool) (t : Nat) (tk k : PTask) (hk : p.tasks[t]? = some k)
+    (hr : (p.reqOf tk).wspec.resume = true) (hs : tk.sawCancel = false) (hm : k.mustCancel = false) :
+    (p.workerCancelled t tk).running = p.running ∧ (p.workerCancelled t tk).cancelledR = p.cancelledR ∧
+    (p.workerCancelled t tk).ended = p.ended ∧
+    ∃ k', (p.workerCancelled t tk).tasks[t]? = some k' ∧ k'.phase = .inWorker ∧ k'.fut = .pending ∧
+      k'.mustCancel = false ∧ k'.outcome = k.outcome ∧ k'.sawCancel = true := by
+  unfold workerCancelled
+  simp only [hr, hs, Bool.not_false, Bool.and_self, if_true]
+  have h1 : ((p.logEv (.resumed t)).modTask t fun k => { k with sawCancel := true }).tasks[t]? = some { k with sawCancel := true } := by
+    simp [modTask, logEv, List.getElem?_modify, hk]
+  unfold suspendTask
+  simp only [h1, hm, Bool.false_eq_true, if_false]
+  refine ⟨rfl, rfl, rfl, { k with sawCancel := true, phase := .inWorker, fut := .pending }, ?_, rfl, rfl, hm, rfl, rfl⟩
+  exact getElem?_modify_eq _ _ _ _ h1
 
 /-! Non-vacuity -/
 def C06_demo : History :=
